@@ -134,10 +134,19 @@ def write_if_changed(path, text):
     return True
 
 
+SUBDIRS = ['Base', 'Gen', 'Model', 'Spec', 'Proofs', 'Props']
+
+
 def ensure_makefile():
-    mk = COQ / 'Makefile'
+    """_CoqProject is regenerated from the directory contents (nobody edits it by hand)."""
+    files = []
+    for d in SUBDIRS:
+        files += sorted(str(p.relative_to(COQ)) for p in (COQ / d).glob('*.v'))
+    text = '-R . Verif\n' + '\n'.join(files) + '\n'
     proj = COQ / '_CoqProject'
-    if not mk.exists() or mk.stat().st_mtime < proj.stat().st_mtime:
+    changed = write_if_changed(proj, text)
+    mk = COQ / 'Makefile'
+    if changed or not mk.exists() or mk.stat().st_mtime < proj.stat().st_mtime:
         subprocess.run(['coq_makefile', '-f', '_CoqProject', '-o', 'Makefile'], cwd=COQ, check=True,
                        stdout=subprocess.DEVNULL, stderr=subprocess.DEVNULL)
 
@@ -406,10 +415,13 @@ def ast_fingerprint(path, qualname):
 # ----------------------------------------------------------------------------------------------
 
 def load_findings():
+    out = []
     p = VERIF / 'known_findings.json'
-    if not p.exists():
-        return []
-    return json.loads(p.read_text()).get('findings', [])
+    if p.exists():
+        out += json.loads(p.read_text()).get('findings', [])
+    for q in sorted((VERIF / 'known_findings.d').glob('*.json')):   # staging area, merged by the integrator
+        out += json.loads(q.read_text()).get('findings', [])
+    return out
 
 
 def match_finding(findings, pid, key):
